@@ -40,7 +40,8 @@ def ev1(name, x):
 
 
 def mm(x, y):
-    return X(f"({x.l} % {y.l})", f"matmul({x.e},{y.e})", max(x.depth, y.depth) + 1, True, x.usesD or y.usesD)
+    # (the eager spelling multiplies evaluated operands, so that the expression-operand overloads of matmul() are on the lazy side only)
+    return X(f"({x.l} % {y.l})", f"matmul(evaluate({x.e}),evaluate({y.e}))", max(x.depth, y.depth) + 1, True, x.usesD or y.usesD)
 
 
 def sol(x, y):
